@@ -154,7 +154,13 @@ fn add_directional_downcast<const ABOVE: bool>(
         jump Failure;
         Success:
     };
+    let prev = casm_builder.curr_ap_change();
     validate_in_range(casm_builder, range_check, value, bound);
+    if ABOVE && prev == casm_builder.curr_ap_change() {
+        // For `bound == 2**128`, `validate_lt` needs no temporary variable, but the declared ap
+        // change and cost of the success branch count it.
+        casm_build_extend!(casm_builder, ap += 1;);
+    }
 }
 
 /// Adds instructions for downcasting where the value may both overflow and underflow.
